@@ -256,6 +256,15 @@ PerMarks(s, t, base) ==
           \* the length determinant of a variable-size string (aligned when the size range needs an octet or more)
           LET s0 == IF t.ext THEN PutBit(s, 0) ELSE s IN
           [s |-> PerEnc(s, t), m |-> here, ln |-> IF FixedSize(t) THEN {} ELSE {base + PerPos(PerAlign(s0))}]
+     [] t.k = "int" ->
+          \* the length of a length-prefixed INTEGER: a bit-field in front of a constrained value whose range exceeds 64K (the octet holding
+          \* it is marked), an aligned octet in front of a semi-constrained / unconstrained / extension value
+          LET wide == t.lb.has /\ t.ub.has /\ ~(SmallNum(t.lb) /\ SmallNum(t.ub) /\ (t.ub.n - t.lb.n) < 65536)
+              inRoot == (~t.lb.has \/ NumGE(t.v, t.lb)) /\ (~t.ub.has \/ NumGE(t.ub, t.v))
+              s0 == IF t.ext /\ t.lb.has /\ t.ub.has THEN PutBit(s, 0) ELSE s
+              lp == IF ~(t.lb.has /\ t.ub.has) \/ ~inRoot THEN {base + PerPos(PerAlign(s0))}
+                    ELSE IF wide THEN {base + PerPos(s0) - (PerPos(s0) % 8)} ELSE {}
+          IN [s |-> PerEnc(s, t), m |-> here, ln |-> lp]
      [] OTHER -> [s |-> PerEnc(s, t), m |-> here, ln |-> {}]
 PerFieldStarts(t) == PerMarks(PerEmpty, t, 0).m
 \* paths to the open type nodes of a value tree (a path: field index / element index / 0 for the value of a CHOICE or open type)
